@@ -10,6 +10,8 @@ DOC_TEXTS = [
     [":keyword", "uses **kwargs"],
     [""],
     ["  two leading spaces"],
+    [".. warning::", "", "   the whole text is one nested directive", "   with an indented body"],
+    ["Summary line", "   hanging continuation", "   second continuation"],
 ]
 IDENTS = ["a", "b", "arg_1", "_p_x", "self"]
 VALUES = ['"str val"', 'plain', '"${VAR}"', '[[bracket arg]]', '""', '"with \\"escaped\\""', "${ref}", "a;b"]
@@ -52,7 +54,7 @@ class Gen:
     def body_cmds(self, indent, depth):
         out = []
         for _ in range(self.rnd.randint(0, 2)):
-            k = self.rnd.choice(["message", "cpa", "set", "if", "nested"])
+            k = self.rnd.choice(["message", "cpa", "set", "if", "nested", "nested_test"])
             if k == "message":
                 out.append(f'{indent}message(STATUS "x" ${{y}})')
             elif k == "cpa":
@@ -63,6 +65,11 @@ class Gen:
                 out.append(f'{indent}if(A AND (B OR C))\n{indent}  cmake_parse_arguments(Q "" "" "" ${{ARGN}})\n{indent}endif()')
             elif k == "nested" and depth < 2:
                 out.append(self.definition(indent, depth + 1))
+            elif k == "nested_test" and depth < 1:
+                # a CMakeTest test whose implementation function (not listed itself) parses keyword arguments
+                nm = self.name("ntst")
+                out.append(f'{indent}ct_add_test(NAME {nm})\n{indent}function(${{{nm}}})\n{indent}    '
+                           f'cmake_parse_arguments(T "" "" "" ${{ARGN}})\n{indent}endfunction()')
         return out
 
     def definition(self, indent, depth=0, kind=None, doc=None):
